@@ -75,6 +75,10 @@ func (g *gl) call(c *ast.CallExpr, bs *[]glBind) string {
 		a := g.expr(c.Args[0], bs)
 		v := g.expr(c.Args[1], bs)
 		return fmt.Sprintf("(%s ++ [(%s >>> (8 : UInt16)).toUInt8, %s.toUInt8])", a, v, atom(v))
+	case "binary.bigEndian.AppendUint32":
+		a := g.expr(c.Args[0], bs)
+		v := g.expr(c.Args[1], bs)
+		return fmt.Sprintf("(%s ++ Go.be32 %s)", a, atom(v))
 	case "bytes.ContainsRune":
 		a := g.expr(c.Args[0], bs)
 		if tv := g.info().Types[c.Args[1]]; tv.Value != nil {
